@@ -26,11 +26,11 @@ static void common_labels(const gcase_t *c, res_t *r) {
 /* classify the size relation for finding keys (input feature, not line number) */
 static const char *relclass(const gcase_t *c) {
     const row_t *row = &g_rows[c->row];
-    if (c->dkind == DK_OVERMAX) return "dmax>RSIZE_MAX";
     if (c->dkind == DK_TOLDLIE) return "dmax>destbos";
     if (c->dest_null || c->src_null || c->out_null) return "null-arg";
     if ((row->fl & F_DIN) && c->dcontent == DC_UNTERM) return "dest-unterminated";
     if ((row->fl & F_SRCSTR) && c->scontent == SC_UNTERM) return "src-unterminated";
+    if (c->dkind == DK_OVERMAX) return "dmax>RSIZE_MAX";
     if ((row->fl & F_SLEN) && c->slen > row->dmax_max) return "slen>RSIZE_MAX";
     if ((row->fl & F_N) && c->n > row->dmax_max) return "n>RSIZE_MAX";
     return "valid-sizes";
